@@ -543,6 +543,20 @@ impl NostrGroupDataExtension {
     }
 }
 
+#[cfg(feature = "verif-hooks")]
+impl NostrGroupDataExtension {
+    /// Verification hook: the exact bytes that are placed in the MLS group context for this value.
+    pub fn verif_to_tls_bytes(&self) -> Result<Vec<u8>, Error> {
+        use tls_codec::Serialize as _;
+        Ok(self.as_raw().tls_serialize_detached()?)
+    }
+
+    /// Verification hook: the parser applied to the bytes found in the MLS group context.
+    pub fn verif_from_tls_bytes(bytes: &[u8]) -> Result<Self, Error> {
+        Self::deserialize_bytes(bytes)
+    }
+}
+
 #[cfg(test)]
 mod tests {
     use mdk_storage_traits::test_utils::crypto_utils::generate_random_bytes;
